@@ -65,7 +65,7 @@ func init() {
 		Assume:      []string{"sort.Sort(sort.Reverse(sort.IntSlice(x))) leaves x in descending order"},
 	})
 	register(&propDef{ID: "C03",
-		Rules: []func(*Ctx){onlyObligations(ruleSlot, func(o *Obligation) bool { return strings.HasSuffix(o.Construct, ".send") }), onlyObligations(ruleLockOrder, func(o *Obligation) bool { return o.Rule == "R-LOCKORDER/self" }), ruleIdx, ruleWindows, ruleOrderO4, ruleErrL3, ruleClientCache, ruleStreamClose,
+		Rules: []func(*Ctx){ruleDialAddrResolved, ruleErrL1, ruleErrL2, ruleCommaOk, ruleChanClosers, onlyObligations(ruleSlot, func(o *Obligation) bool { return strings.HasSuffix(o.Construct, ".send") }), onlyObligations(ruleLockOrder, func(o *Obligation) bool { return o.Rule == "R-LOCKORDER/self" }), ruleIdx, ruleWindows, ruleOrderO4, ruleErrL3, ruleClientCache, ruleStreamClose,
 			ruleExit, ruleCtx, ruleBound, ruleWG,
 			scoped(ruleErrL1Scoped, connectPath), scoped(ruleErrL2Scoped, connectPath),
 		},
@@ -75,7 +75,7 @@ func init() {
 		Assume:      []string{"yamux with default config (keep-alive on) fails a session whose peer is gone", "grpc-go fails RPCs on a closed connection"},
 	})
 	register(&propDef{ID: "C04",
-		Rules: []func(*Ctx){ruleRunnerWait, onlyObligations(ruleLockOrder, func(o *Obligation) bool { return o.Rule == "R-LOCKORDER/self" }), ruleProcNil, ruleKilledFlag, onlyObligations(ruleDrain, func(o *Obligation) bool { return strings.Contains(o.Construct, "loop ends on read error") }),
+		Rules: []func(*Ctx){ruleManaged, ruleRunnerWait, onlyObligations(ruleLockOrder, func(o *Obligation) bool { return o.Rule == "R-LOCKORDER/self" }), ruleProcNil, ruleKilledFlag, onlyObligations(ruleDrain, func(o *Obligation) bool { return strings.Contains(o.Construct, "loop ends on read error") }),
 			ruleWindows, ruleRunnerKill, ruleKillCtx, ruleOrderO4,
 			ruleKill, ruleBoundRPC, scoped(ruleBoundScoped, fnIn("Client.Kill", "CleanupClients")), ruleSibClose, ruleWG,
 			guardOn("Client.", "managedClients", "RPCServer.DoneCh", "GRPCServer.broker"), ruleClose1,
@@ -86,7 +86,7 @@ func init() {
 		Assume:      []string{"context.WithTimeout bounds a unary gRPC call", "os.Process.Kill delivers SIGKILL"},
 	})
 	register(&propDef{ID: "C05",
-		Rules: []func(*Ctx){ruleRunnerKill, onlyObligations(ruleLockOrder, func(o *Obligation) bool { return o.Rule == "R-LOCKORDER/self" }), onlyObligations(ruleOnce, func(o *Obligation) bool { return strings.Contains(o.Construct, "launch gate") }), ruleKillCtx, ruleOrderO4,
+		Rules: []func(*Ctx){scoped(ruleErrL1Scoped, func(f *Func) bool { return strings.HasPrefix(f.Name, "cmdrunner.") }), scoped(ruleErrL2Scoped, func(f *Func) bool { return strings.HasPrefix(f.Name, "cmdrunner.") }), ruleRunnerKill, onlyObligations(ruleLockOrder, func(o *Obligation) bool { return o.Rule == "R-LOCKORDER/self" }), onlyObligations(ruleOnce, func(o *Obligation) bool { return strings.Contains(o.Construct, "launch gate") }), ruleKillCtx, ruleOrderO4,
 			ruleOrderStart, scoped(ruleErrL2Scoped, startPath), scoped(ruleErrL1Scoped, startPath), ruleKill, ruleSocketDir,
 			scoped(ruleBoundScoped, fnIn("Client.Start")), onlyObligations(ruleDrain, func(o *Obligation) bool { return strings.Contains(o.Construct, "loop ends on read error") }),
 		},
@@ -96,7 +96,7 @@ func init() {
 		Assume:      []string{"deferred functions run on every return and on panic"},
 	})
 	register(&propDef{ID: "C06",
-		Rules: []func(*Ctx){ruleNoCopySync, onlyObligations(ruleLockBlock, func(o *Obligation) bool { return strings.HasPrefix(o.Func, "MuxBroker.") }), ruleExpiryDrain, ruleRunDispatch, rulePendDone, ruleWindows, ruleSlotCapacityOne, ruleWireAgreement, ruleDeadline, ruleGetOrCreate, ruleExpiry, ruleRunNonBlocking, ruleFreshMsg,
+		Rules: []func(*Ctx){ruleBrokerRuns, ruleRunErrStops, ruleNoCopySync, onlyObligations(ruleLockBlock, func(o *Obligation) bool { return strings.HasPrefix(o.Func, "MuxBroker.") }), ruleExpiryDrain, ruleRunDispatch, rulePendDone, ruleWindows, ruleSlotCapacityOne, ruleWireAgreement, ruleDeadline, ruleGetOrCreate, ruleExpiry, ruleRunNonBlocking, ruleFreshMsg,
 			ruleIDMux, ruleSlot, guardOn("MuxBroker."), scoped(ruleBoundScoped, fnIn("MuxBroker.Accept", "MuxBroker.timeoutWait", "MuxBroker.Run", "MuxBroker.Dial")), ruleAtomicIDs,
 		},
 		Technique:   "origin (def-use) resolution of the brokered id on both ends, channel-capacity check, lockset on the pending map, timer-arm classification",
@@ -105,7 +105,7 @@ func init() {
 		Assume:      []string{"yamux delivers each stream's bytes in order to its peer only"},
 	})
 	register(&propDef{ID: "C07",
-		Rules: []func(*Ctx){ruleNoCopySync, onlyObligations(ruleLockBlock, func(o *Obligation) bool { return strings.HasPrefix(o.Func, "GRPCBroker.") }), ruleRunDispatch, rulePendDone, ruleNoAppendToParam, ruleWindows, ruleTranslateDirections, ruleSlotCapacityOne, ruleIDRoles, ruleDeadline, ruleGetOrCreate, ruleExpiry, ruleRunNonBlocking, ruleFreshMsg, ruleTranslate, ruleCtorStoresTLS,
+		Rules: []func(*Ctx){ruleBrokerRuns, ruleWireFields, ruleDialAddrResolved, scoped(ruleErrL1Scoped, func(f *Func) bool { return strings.HasPrefix(f.Name, "GRPCBroker.") || f.Name == "dialGRPCConn" }), ruleNoCopySync, onlyObligations(ruleLockBlock, func(o *Obligation) bool { return strings.HasPrefix(o.Func, "GRPCBroker.") }), ruleRunDispatch, rulePendDone, ruleNoAppendToParam, ruleWindows, ruleTranslateDirections, ruleSlotCapacityOne, ruleIDRoles, ruleDeadline, ruleGetOrCreate, ruleExpiry, ruleRunNonBlocking, ruleFreshMsg, ruleTranslate, ruleCtorStoresTLS,
 			ruleIDGRPC, ruleSlot, guardOn("GRPCBroker."), scoped(ruleErrL1Scoped, fnIn("GRPCBroker.DialWithOptions", "GRPCBroker.Accept", "GRPCBroker.AcceptAndServe")),
 			scoped(ruleErrL2Scoped, fnIn("GRPCBroker.DialWithOptions", "GRPCBroker.Accept")), scoped(ruleBoundScoped, fnIn("GRPCBroker.DialWithOptions", "GRPCBroker.timeoutWait", "GRPCBroker.Run")),
 			ruleTLSUse, ruleAtomicIDs,
@@ -115,7 +115,7 @@ func init() {
 		NotDecided:  "routing under all interleavings; that grpc-go connects to the address it was given.",
 	})
 	register(&propDef{ID: "C08",
-		Rules: []func(*Ctx){onlyObligations(ruleClose1, func(o *Obligation) bool { return strings.HasPrefix(o.Func, "grpcmux.") || strings.Contains(o.Construct, "grpcmux.") }), ruleWindows, onlyObligations(ruleRunDispatch, func(o *Obligation) bool { return o.Func == "GRPCBroker.Run" || o.Func == "" }), ruleKnockTable, ruleMuxOnlyGRPC, ruleIDRoles, ruleDeadline, ruleLockPair, ruleGetOrCreate,
+		Rules: []func(*Ctx){ruleWireFields, scoped(ruleErrL1Scoped, func(f *Func) bool { return strings.HasPrefix(f.Name, "grpcmux.") }), scoped(ruleErrL2Scoped, func(f *Func) bool { return strings.HasPrefix(f.Name, "grpcmux.") }), ruleMuxListenerHook, onlyObligations(ruleClose1, func(o *Obligation) bool { return strings.HasPrefix(o.Func, "grpcmux.") || strings.Contains(o.Construct, "grpcmux.") }), ruleWindows, onlyObligations(ruleRunDispatch, func(o *Obligation) bool { return o.Func == "GRPCBroker.Run" || o.Func == "" }), ruleKnockTable, ruleMuxOnlyGRPC, ruleIDRoles, ruleDeadline, ruleLockPair, ruleGetOrCreate,
 			ruleOrderO8, ruleMuxSer, ruleSlot, ruleIDKnock, guardOn("grpcmux.", "GRPCBroker.serverStreams", "GRPCBroker.clientStreams"),
 		},
 		Technique:   "dominance query (listener registration before knock goroutine), must-held lockset for the serialised dial, channel-capacity check, id origin resolution",
@@ -123,7 +123,7 @@ func init() {
 		NotDecided:  "the four-goroutine hand-off under all schedules; behaviour when brokered connections are not established sequentially (excluded by the API contract).",
 	})
 	register(&propDef{ID: "C09",
-		Rules: []func(*Ctx){ruleSlot, ruleExpiryDrain, ruleRunDispatch, onlyObligations(ruleSibClose, func(o *Obligation) bool { return strings.HasPrefix(o.Construct, "closes the") }), ruleWindows, ruleSlotCapacityOne, ruleBrokerCloseCloses, ruleIDRoles, ruleLockPair, ruleLockOrder, ruleRunNonBlocking, ruleStreamClose,
+		Rules: []func(*Ctx){ruleChanClosers, ruleGRPCBrokerClose, ruleRunErrStops, ruleMuxListenerHook, ruleSlot, ruleExpiryDrain, ruleRunDispatch, onlyObligations(ruleSibClose, func(o *Obligation) bool { return strings.HasPrefix(o.Construct, "closes the") }), ruleWindows, ruleSlotCapacityOne, ruleBrokerCloseCloses, ruleIDRoles, ruleLockPair, ruleLockOrder, ruleRunNonBlocking, ruleStreamClose,
 			ruleLockBlock, scoped(ruleBoundScoped, fnIn("MuxBroker.Accept", "MuxBroker.Run", "MuxBroker.timeoutWait", "MuxBroker.Dial", "GRPCBroker.DialWithOptions", "GRPCBroker.knock", "GRPCBroker.timeoutWait", "GRPCBroker.Run", "GRPCBroker.listenForKnocks", "GRPCBroker.Accept", "grpcmux.GRPCServerMuxer.session")),
 			ruleRes, ruleExpiry, ruleClose1,
 		},
@@ -139,13 +139,13 @@ func init() {
 		Assume:      []string{"bufio.Reader.ReadLine returns a non-nil error only at EOF or read failure", "bufio.Scanner stops with ErrTooLong at a 64 KiB token"},
 	})
 	register(&propDef{ID: "C11",
-		Rules:       []func(*Ctx){ruleStdioDelivery, ruleNoCloseWriter, scoped(ruleBoundScoped, fnIn("grpcStdioServer.StreamStdio", "grpcStdioClient.Run", "copyChan")), ruleDrainSink, ruleDefaults, ruleStdioSequential, ruleDeadline, ruleCtx, ruleStdioWiring, ruleFresh, ruleCopyChan},
+		Rules:       []func(*Ctx){onlyObligations(ruleWireFields, func(o *Obligation) bool { return strings.Contains(o.Construct, "StdioData") }), ruleCopyChanExits, ruleStdioDelivery, ruleNoCloseWriter, scoped(ruleBoundScoped, fnIn("grpcStdioServer.StreamStdio", "grpcStdioClient.Run", "copyChan")), ruleDrainSink, ruleDefaults, ruleStdioSequential, ruleDeadline, ruleCtx, ruleStdioWiring, ruleFresh, ruleCopyChan},
 		Technique:   "label propagation (stdout/stderr) over resolved fields, parameters and constants; allocation-site-in-loop check; statement ordering in the chunk loop",
 		Explanation: "Decides the wiring and aliasing conditions: every edge of the stdio path joins equal labels (os.Pipe pair -> os.Stdout/os.Stderr and the server's Stdout/Stderr fields -> stdoutCh/stderrCh -> STDOUT/STDERR tags -> host stdout/stderr writers <- SyncStdout/SyncStderr; net/rpc stream 0/1 on both ends) (R-TABLE/stdio); the chunk sent on the channel is backed by an array declared inside the loop body, so a later read cannot overwrite bytes in flight (R-FRESH); data[:n] is sent before the error of the same read is acted on and the hand-off is an unconditional blocking send (O10). Every loop of the stdio path forwards the chunk it received itself (no goroutine per chunk: R-ORDER/stdio); no absolute deadline stays armed on the stdio streams (R-DEADLINE). Every non-empty read is forwarded (guard n > 0); NewClient stores a default only into the field it found unset (R-DEFAULTS). No value held as an io.Writer is asserted to a closer (R-OWN/writer); the context of the long-lived stdio stream is the context parameter as received (R-CTX); the stdio handlers' waits have a cancellation arm (R-BOUND).",
 		NotDecided:  "byte-exactness and ordering themselves (gRPC stream, yamux and io.Copy contracts); data written before the host attaches.",
 	})
 	register(&propDef{ID: "C12",
-		Rules:       []func(*Ctx){cfgWritersFor("ClientConfig.TLSConfig", "ClientConfig.AutoMTLS", "ServeConfig.TLSProvider"), onlyObligations(ruleEnv, func(o *Obligation) bool { return o.Rule == "R-ORDER/O5" && strings.Contains(o.Construct, "before the runner is created") }), ruleCtorStoresTLS, ruleTLSConfig, ruleTLSPools, ruleTLSUse, ruleCertGen, ruleAutoMTLSGate, ruleEnvCertOnly, scoped(ruleErrL2Scoped, fnIn("Client.Start", "Client.loadServerCert")), scoped(ruleErrL1Scoped, fnIn("Client.loadServerCert"))},
+		Rules:       []func(*Ctx){scoped(ruleErrL1Scoped, fnIn("generateCert", "Serve")), scoped(ruleErrL2Scoped, fnIn("generateCert")), cfgWritersFor("ClientConfig.TLSConfig", "ClientConfig.AutoMTLS", "ServeConfig.TLSProvider"), onlyObligations(ruleEnv, func(o *Obligation) bool { return o.Rule == "R-ORDER/O5" && strings.Contains(o.Construct, "before the runner is created") }), ruleCtorStoresTLS, ruleTLSConfig, ruleTLSPools, ruleTLSUse, ruleCertGen, ruleAutoMTLSGate, ruleEnvCertOnly, scoped(ruleErrL2Scoped, fnIn("Client.Start", "Client.loadServerCert")), scoped(ruleErrL1Scoped, fnIn("Client.loadServerCert"))},
 		Technique:   "composite-literal and field-store audit of every tls.Config in scope; origin resolution of certificate pools; provenance of TLS options at every listener/dial constructor call site",
 		Explanation: "Decides what go-plugin itself contributes to mutual authentication: both tls.Config literals require and verify client certificates, set MinVersion >= TLS 1.2, carry the freshly generated pair and no verification bypass, and no store weakens them (R-TLS/config); RootCAs and ClientCAs are, on both sides, a fresh pool that received exactly the peer's handshake certificate (R-TLS/pools); every gRPC server factory call, dialGRPCConn call and broker construction passes the owner's TLS config, the insecure dial option is dominated by tls == nil, and the net/rpc listener/conn are wrapped under a non-nil config (R-TLS/use); the two certificates travel in PLUGIN_CLIENT_CERT and handshake field 6; a certificate that cannot be parsed or pinned fails the start (R-ERR on Start/loadServerCert). The credential generator draws key and certificate from crypto/rand.Reader, self-signs with the generated key over its public half, and returns that same key (R-TLS/certgen). The server builds the mutual-TLS configuration on every path on which a client certificate is present and no provider configuration exists, and the only stores to ClientConfig.TLSConfig assign the audited literal (R-TLS/automtls). The client-certificate variable tested by the AutoMTLS gate holds the environment value (single assignment); TLSConfig/AutoMTLS/TLSProvider are assigned only at the reviewed site (R-CFG/writers).",
 		NotDecided:  "that crypto/tls enforces what is configured.",
@@ -159,7 +159,7 @@ func init() {
 		Assume:      []string{"subtle.ConstantTimeCompare returns 1 iff the slices have equal length and contents"},
 	})
 	register(&propDef{ID: "C14",
-		Rules:       []func(*Ctx){cfgWritersFor("ClientConfig.AllowedProtocols", "ClientConfig.GRPCBrokerMultiplex", "ClientConfig.TLSConfig", "ClientConfig.AutoMTLS", "ClientConfig.Reattach", "ClientConfig.RunnerFunc", "ServeConfig.GRPCServer", "ServeConfig.TLSProvider"), onlyObligations(ruleEnv, func(o *Obligation) bool { return o.Rule == "R-ORDER/O5" && strings.Contains(o.Construct, "before the runner is created") }), ruleWindows, ruleVersionNegotiation, ruleTLSConfig, ruleTranslateDirections, ruleDialOptions, ruleHostEnvFilter, ruleMuxOnlyGRPC, ruleCtorStoresTLS, ruleGateExcl, ruleGateProtoMux, ruleSibDispense, ruleSibSwitch, ruleOrderStart, ruleTLSUse},
+		Rules:       []func(*Ctx){ruleCommaOk, cfgWritersFor("ClientConfig.AllowedProtocols", "ClientConfig.GRPCBrokerMultiplex", "ClientConfig.TLSConfig", "ClientConfig.AutoMTLS", "ClientConfig.Reattach", "ClientConfig.RunnerFunc", "ServeConfig.GRPCServer", "ServeConfig.TLSProvider"), onlyObligations(ruleEnv, func(o *Obligation) bool { return o.Rule == "R-ORDER/O5" && strings.Contains(o.Construct, "before the runner is created") }), ruleWindows, ruleVersionNegotiation, ruleTLSConfig, ruleTranslateDirections, ruleDialOptions, ruleHostEnvFilter, ruleMuxOnlyGRPC, ruleCtorStoresTLS, ruleGateExcl, ruleGateProtoMux, ruleSibDispense, ruleSibSwitch, ruleOrderStart, ruleTLSUse},
 		Technique:   "dominance queries for configuration gates, sibling cross-check of Dispense implementations and protocol switches, TLS option provenance",
 		Explanation: "Decides: the exclusivity checks (exactly one of Cmd/Reattach/RunnerFunc; SecureConfig or multiplexing with Reattach) return errors before any launch site (G-excl); the announced protocol must be in AllowedProtocols and the multiplexing field must be present and true when requested, failing with an error that is or wraps ErrGRPCBrokerMuxNotSupported (G-proto, G-mux); all three Dispense implementations return a non-nil error on a map miss; Client() and Serve switch over both protocols with an error/panic default; NewClient defaults AllowedProtocols to exactly net/rpc (R-SIB); refused configurations terminate the plugin (O3); plaintext is used only when no TLS config exists (R-TLS/use). The yamux server muxer wraps the listener only on the gRPC arm of the protocol switch. dialGRPCConn lifts the message size limit in both directions (R-SIB/dialopts); translation directions (R-ID/translate); the host-environment filter drops the feature variables whatever their value. Every store to Client.address in Start is behind all handshake gates, including the evaluation of the multiplexing request (all commits, not only the last); both tls.Config literals require client certificates (R-TLS/config); the option fields are assigned only at the reviewed sites (R-CFG/writers).",
 		NotDecided:  "the end-to-end behaviour of each cell of the configuration matrix.",
@@ -171,7 +171,7 @@ func init() {
 		NotDecided:  "that the address reaches the same plugin instance (a run-time value).",
 	})
 	register(&propDef{ID: "C16",
-		Rules:       []func(*Ctx){ruleVersionNegotiation, cfgWritersFor("HandshakeConfig.MagicCookieKey", "HandshakeConfig.MagicCookieValue"), onlyObligations(ruleHostEnvFilter, func(o *Obligation) bool { return strings.Contains(o.Construct, "PLUGIN_MULTIPLEX_GRPC") }), ruleServeMuxExit, ruleServeServes, ruleCookie, ruleOrderServe, ruleHandshakeTable, ruleStdout},
+		Rules:       []func(*Ctx){scoped(ruleErrL1Scoped, fnIn("Serve", "serverListener", "serverListener_tcp", "serverListener_unix", "setGroupWritable", "ServeMux", "protocolVersion")), scoped(ruleErrL2Scoped, fnIn("serverListener", "serverListener_tcp", "serverListener_unix", "setGroupWritable")), ruleVersionNegotiation, cfgWritersFor("HandshakeConfig.MagicCookieKey", "HandshakeConfig.MagicCookieValue"), onlyObligations(ruleHostEnvFilter, func(o *Obligation) bool { return strings.Contains(o.Construct, "PLUGIN_MULTIPLEX_GRPC") }), ruleServeMuxExit, ruleServeServes, ruleCookie, ruleOrderServe, ruleHandshakeTable, ruleStdout},
 		Technique:   "dominance of listener/print sites by the cookie gate, statement ordering in Serve, format-string/argument table extraction, who-may-write audit of os.Stdout",
 		Explanation: "Decides: the empty key/value test and the exact != comparison of os.Getenv(key) with the value set exit code 1 and return before any listen or print site, and the deferred os.Exit reads that variable (G-cookie); the listener and server.Init precede the handshake print, print and Sync precede the os.Stdout swap (O6); the line is Sprintf(\"%d|%d|%s|%s|%s|%s\") of core version, negotiated version, listener network/address, protocol and certificate, with a seventh field only under os.Getenv(PLUGIN_MULTIPLEX_GRPC) != \"\" (R-TABLE/handshake); the only write to the real stdout in scope is that print (R-STDOUT). Both ServerProtocol.Serve implementations reach the accept loop on the announced listener on every path (nothing fallible between the print and accepting). ServeMux exits with status 1 on improper invocation. The inherited PLUGIN_MULTIPLEX_GRPC is filtered from the host environment (the seventh field appears only when this host asked); the magic cookie fields are never assigned (R-CFG/writers).",
 		NotDecided:  "the exit status as observed by the OS; that a listening socket queues connections before Accept (kernel contract).",
@@ -184,7 +184,7 @@ func init() {
 		Assume:      []string{"exec.Cmd de-duplicates Env keeping the last value"},
 	})
 	register(&propDef{ID: "C18",
-		Rules:       []func(*Ctx){ruleClose1, ruleBrokerListeners, ruleIDRoles, ruleBrokerCloseCloses, onlyObligations(ruleSibClose, func(o *Obligation) bool {
+		Rules:       []func(*Ctx){ruleChanClosers, ruleAcceptAndServeCloses, ruleMuxListenerHook, ruleGRPCBrokerClose, ruleCopyChanExits, ruleClose1, ruleBrokerListeners, ruleIDRoles, ruleBrokerCloseCloses, onlyObligations(ruleSibClose, func(o *Obligation) bool {
 			return strings.HasPrefix(o.Construct, "closes the") || strings.HasPrefix(o.Construct, "Shutdown stops")
 		}), ruleWrapClose, ruleRes, ruleSocketDir, ruleStopClosesBroker, ruleWG, ruleBound},
 		Technique:   "wrapper-closes-wrapped audit of every net.Listener implementation, resource typestate (listener closed on every return), Kill path enumeration",
@@ -198,7 +198,7 @@ func init() {
 		NotDecided:  "pointer equality of returned values across calls (follows from the cache structure but is a run-time fact).",
 	})
 	register(&propDef{ID: "C20",
-		Rules:       []func(*Ctx){ruleNoCopySync, ruleNoAppendToParam, ruleFresh, ruleErrL3, ruleLockPair, ruleLockOrder, ruleGetOrCreate, ruleGuard, ruleClose1, ruleLockBlock, ruleNilGuard, ruleAssert},
+		Rules:       []func(*Ctx){ruleCommaOk, ruleNoCopySync, ruleNoAppendToParam, ruleFresh, ruleErrL3, ruleLockPair, ruleLockOrder, ruleGetOrCreate, ruleGuard, ruleClose1, ruleLockBlock, ruleNilGuard, ruleAssert},
 		Technique:   "lockset analysis with inferred guards and caller summaries, field-write discipline, atomic-only id counters, close-once classification",
 		Explanation: "Decides: every access to a shared field named by the property's anchors holds the mutex inferred as its guard, in its own lock region or in all callers (reviewed happens-before exceptions for reads only); every other struct-field write outside constructors is under a mutex, inside sync.Once.Do or in the reviewed table; the id counters are touched only through sync/atomic; every close() is inside Once.Do, nil-test-and-clear under a mutex, a local single owner, or a reviewed shared close (R-CLOSE1); no blocking under a mutex; no unguarded optional-pointer dereference; no panicking assertion on plugin data. No nil-able result is dereferenced before its error was tested (R-ERR/L3); the chunk buffer sent on the stdio channel is allocated per iteration (R-FRESH); a reply channel is closed only after the reply was received (R-CLOSE1/reply). No append into a slice parameter (R-ALIAS).",
 		NotDecided:  "races the lockset abstraction cannot express (happens-before through channels beyond the tabled exceptions), races inside dependencies, uniqueness of ids beyond 'atomic add, no other writer'.",
